@@ -541,6 +541,11 @@ func c12CheckUnmarshal(c *kit.Ctx, r *kit.Rule, f *kit.Func, call *ast.CallExpr)
 			return !contains
 		})
 		if !contains {
+			// make the outcome of a compound test sticky before the
+			// error variable can be reused
+			if s.Get("st") == "pending" && s.Has("a:unmerr") {
+				s = s.Set("st", phase(s)).Del("a:unmerr")
+			}
 			check(n, s)
 			if as, ok := n.(*ast.AssignStmt); ok && errObj != nil {
 				for _, l := range as.Lhs {
